@@ -337,26 +337,27 @@ func (node *Node) ProcessBlock(ctx context.Context, block wire.Block) error {
 			txsIsNew = append(txsIsNew, false)
 			txsIsSafe = append(txsIsSafe, true)
 
+		} else if node.IsRelevant(ctx, tx) {
+			// Not seen yet, or only just seen: a tx that is in the mempool but not in the unconfirmed
+			// txs is either not relevant or is being processed right now by the tx thread, which has
+			// to wait for the tx repo (locked for this block) before it can add it. That thread
+			// will find the tx already confirmed.
+
+			// Add to txs for block
+			if _, _, err := node.txs.Add(ctx, *txid, true, true, height); err != nil {
+				node.txs.ReleaseUnconfirmed(ctx)
+				return errors.Wrap(err, "add to tx repo")
+			}
+
+			merkleTree.AddMerkleProof(*txid)
+			txs = append(txs, tx)
+			txsIsNew = append(txsIsNew, true)
+			txsIsSafe = append(txsIsSafe, isSafe)
+
 		} else if !inMemPool {
-			// Not seen yet
-
-			if node.IsRelevant(ctx, tx) {
-				// Add to txs for block
-				if _, _, err := node.txs.Add(ctx, *txid, true, true, height); err != nil {
-					node.txs.ReleaseUnconfirmed(ctx)
-					return errors.Wrap(err, "add to tx repo")
-				}
-
-				merkleTree.AddMerkleProof(*txid)
-				txs = append(txs, tx)
-				txsIsNew = append(txsIsNew, true)
-				txsIsSafe = append(txsIsSafe, isSafe)
-
-			} else {
-				if _, err := node.txs.Remove(ctx, *txid, height); err != nil {
-					node.txs.ReleaseUnconfirmed(ctx)
-					return errors.Wrap(err, "remove from tx repo")
-				}
+			if _, err := node.txs.Remove(ctx, *txid, height); err != nil {
+				node.txs.ReleaseUnconfirmed(ctx)
+				return errors.Wrap(err, "remove from tx repo")
 			}
 		}
 
